@@ -54,7 +54,9 @@ VARIABLES pc,          \* the handshaking goroutine (see above)
 vars == <<pc, rs, att, trs, pit, ptt, table, count, closeL, conn, connTrs, nclose, reopened, crashed, ncli, hist>>
 view == <<pc, rs, att, trs, pit, ptt, table, count, closeL, conn, connTrs, nclose, reopened, crashed, ncli>>
 Dev(d) == d \in Deviations
-H(a) == hist' = <<a>>       \* (the last action only: every state of the dumped graph carries the action that produced it)
+\* the last action only (every state of the dumped graph carries the action that produced it); the whole history when asked for
+\* ("fullhist": the counterexamples of the deviations, which are replayed into the real code)
+H(a) == hist' = IF "fullhist" \in Deviations THEN Append(hist, a) ELSE <<a>>
 
 Init == /\ pc = "attached" /\ rs = "opening" /\ att = TRUE /\ trs = "open" /\ pit = "unset" /\ ptt = "unset"
         /\ table = FALSE /\ count = 0 /\ closeL = FALSE /\ conn = 0 /\ connTrs = "" /\ nclose = 0
